@@ -149,15 +149,44 @@ func c05Generate(c *mon.Ctx) {
 	// operands that are products [k]P computed by the library itself, for the notable scalars (0, 1, n-1, powers of two,
 	// zero limbs, the endomorphism eigenvalues, ...): whatever form Multiply leaves them in, against the oracle's [k]P
 	sp := gen.ScalarSpecials()
-	for i := 0; i < len(sp); i += c.N(5, 1) {
-		k := sp[(i+int(c.Seed))%len(sp)]
+	for i := 0; i < len(sp); i++ {
+		k := sp[i]
 		pv := pool.NonInf[i%len(pool.NonInf)]
-		a := mon.MkMulKElemCase(pv, k.X)
-		want := gen.PV{P: oracle.Mul(k.X, pv.P), Tag: "kP"}
-		b := mon.MkElemCase(want, gen.StructuredReprs(want.P.IsInf())[i%len(gen.StructuredReprs(want.P.IsInf()))])
-		o := mon.MkElemCase(gen.PV{P: oracle.Inf(), Tag: "O"}, gen.StructuredReprs(true)[0])
-		c.Structured(func() any { return &c05Case{A: a, B: b, Rel: "P"} })
-		c.Structured(func() any { return &c05Case{A: o, B: a, Rel: "unrelated"} })
+
+		if i%7 == 3 {
+			pv = gen.PV{P: oracle.Inf(), Tag: "O"} // [k]O, from an identity the library itself produced
+		}
+		i, pv, k := i, pv, k
+
+		// (built inside the closures: only the shard that runs the case pays for the oracle's multiplication)
+		mk := func() (a, b, o mon.ElemCase) {
+			a = mon.MkMulKElemCase(pv, k.X)
+			want := gen.PV{P: a.P.Pt(), Tag: "kP"}
+			rs := gen.StructuredReprs(want.P.IsInf())
+			b = mon.MkElemCase(want, rs[i%len(rs)])
+			o = mon.MkElemCase(gen.PV{P: oracle.Inf(), Tag: "O"}, gen.StructuredReprs(true)[0])
+
+			return a, b, o
+		}
+
+		c.Structured(func() any { a, b, _ := mk(); return &c05Case{A: a, B: b, Rel: "P"} })
+		c.Structured(func() any { a, _, o := mk(); return &c05Case{A: o, B: a, Rel: "unrelated"} })
+	}
+
+	// operands that are sums / differences / doubles / negations computed by the library from operands in every structured
+	// representation (an operation that mistakes one representation for another gives a wrong element, which then compares
+	// unequal to the same sum computed from other representations)
+	srs := gen.StructuredReprs(false)
+	for i, pv := range pool.NonInf {
+		q := pool.NonInf[(i+9)%len(pool.NonInf)]
+
+		for j, rq := range srs {
+			rp := srs[(i+3*j)%len(srs)]
+			op := []string{"add", "sub", "double", "negate"}[(i+j)%4]
+			a := mon.MkOpElemCase(op, mon.MkElemCase(pv, rp), mon.MkElemCase(q, rq))
+			b := mon.MkOpElemCase(op, mon.MkElemCase(pv, srs[0]), mon.MkElemCase(q, srs[0]))
+			c.Structured(func() any { return &c05Case{A: a, B: b, Rel: "P"} })
+		}
 	}
 
 	n5, n6 := mon.MkNatElemCase(pool.All[0], 5), mon.MkNatElemCase(pool.All[0], 6)
